@@ -56,6 +56,8 @@ def run(ctx):
   rule_minsize(ctx)
   rule_cusum(ctx)
   rule_formula(ctx)
+  rule_pure(ctx)
+  ctx.expect("R-C12-PURE", 56, "every function of the five modules behind the statistical tests")
   ctx.expect("R-C12-FORMULA", 20, "statistic formulas of ten tests")
   ctx.expect("R-C12-TABLES", 60, "17 longest-run + 6 + 33 rank + universal + 11 min_n + 14 linear complexity + 3 excursions")
   ctx.expect("R-C12-MINSIZE", 9, "nine InsufficientDataError guards")
@@ -642,3 +644,80 @@ def rule_formula(ctx):
       mx, mn, s_ = as_poly(env.get("maxs")), as_poly(env.get("mins")), as_poly(env.get("s"))
       want = sym.mk("max", mx, -mn) if e.data["name"].endswith("forward") else sym.mk("max", mx - s_, s_ - mn)
       cmp_terms(ctx, R, f.where, e.data["name"], as_poly(e.data["value"]), want, "2.13.4 z = max |S_k| resp. max |S_n - S_k|")
+
+
+# ------------------------------------------------------------------ PURE: a p-value is a function of the bit string and the parameters only
+PURE_MODULES = ("randomness_tests.nist_suite", "randomness_tests.extended_nist_suite", "randomness_tests.util", "randomness_tests.exp1",
+                "randomness_tests.berlekamp_massey")
+_WITNESS = '''
+_T = {}
+def f(m, k, n, memo={}):
+  global calls
+  key = (m, k)
+  if key not in _T:
+    _T[key] = n
+  t = _T
+  t.pop(key)
+  memo[key] = 1
+  return _T[key]
+'''
+
+
+def rule_pure(ctx):
+  R = "R-C12-PURE"
+  repo = ctx.repo
+  from pcstatic import effects
+  # the scanner must still see the four kinds of persistent write in its own witness
+  wt = ast.parse(_WITNESS)
+  got = effects.persistent_writes(wt.body[1], effects.module_vars(wt))
+  if len(got) != 4:
+    raise Incomplete("effect scanner self-check found %d of 4 planted writes" % len(got), "pcstatic.effects")
+  n = 0
+  for ms in PURE_MODULES:
+    m = repo.mod(ms)
+    mv = effects.module_vars(m.tree)
+    for fn in repo.all_funcs(include_examples=False):
+      if fn.module is not m:
+        continue
+      n += 1
+      probs = []
+      memo = 0
+      for node, txt in effects.persistent_writes(fn.node, mv):
+        why = memo_sound(repo, fn, node)
+        if why is True:
+          memo += 1
+        else:
+          probs.append("line %d: %s%s" % (getattr(node, "lineno", 0), txt, "; " + why if why else ""))
+      probs += ["decorator %s may keep state between calls" % d for d in effects.impure_decorators(fn.node)]
+      ctx.record(R, fn.where, "no state outlives the call", not probs, "; ".join(probs) if probs else
+                 "no global declaration, no write to a module-level container or attribute (directly or through a local alias), no mutable default argument written"
+                 + (" (%d memo store(s) keyed by every input of the stored value)" % memo if memo else ""))
+
+
+def memo_sound(repo, fn, node):
+  """A store TABLE[key] = value into persistent state is harmless when value is a function of the key alone: True, else a reason (or '' when the
+  write is not such a store)."""
+  if not (isinstance(node, ast.Assign) and len(node.targets) == 1 and isinstance(node.targets[0], ast.Subscript)):
+    return ""
+  w = sym.Walker(repo, fn)
+  w.run()
+  evs = [e for e in w.events if e.kind == "store" and e.node is node]
+  if not evs:
+    return ""
+  for e in evs:
+    key, val = e.data["index"], e.data["value"]
+    kp = set()
+    for x in (key.items if isinstance(key, Seq) else [key]):
+      if isinstance(x, Const):
+        continue
+      kp |= {repr(a) for a in as_poly(x).all_atoms() if a.kind in ("param", "sym")}
+    vp = set()
+    for x in (val.items if isinstance(val, Seq) else [val]):
+      if isinstance(x, Const):
+        continue
+      vp |= {repr(a) for a in as_poly(x).all_atoms() if a.kind in ("param", "sym")}
+    extra = sorted(vp - kp)
+    if extra:
+      return "the stored value depends on %s, which is not part of the key: a later call with the same key and another %s reads a stale entry" % (
+          ", ".join(extra), extra[0])
+  return True
